@@ -179,9 +179,44 @@ def known_f9_clause(cl, rng, n, replay):
                 f"{hvsrpy.HvsrTraditional.cov_fn(h, 'lognormal').ravel().tolist()}", signature="F-9:wf-preservation:valid_peak-without-peak")
 
 
+def peakless_accepted_clause(cl, rng, n, replay):
+    """an accepted window without a peak in the range (the state F-9 describes, also reachable by setting the masks by hand or from a file)
+    contributes nothing to the fn statistics: mean / std / n-th std are those of the accepted windows that have a peak.  (cov_fn in this
+    state is the known finding F-9 and is not examined here.)"""
+    for j in range(n):
+        h, f, A = gen_object(rng, k=int(rng.integers(6, 12)))
+        lo = float(rng.uniform(0.2, 1.0))
+        h.update_peaks_bounded(search_range_in_hz=(lo, float(rng.uniform(4, 20))))
+        nopeak = np.isnan(h._main_peak_frq)
+        if nopeak.sum() == 0 or (~nopeak).sum() < 3:
+            # force one: flatten a curve's peak state by hand (what a file or a time-domain rejection can install)
+            idx = int(rng.integers(0, len(nopeak)))
+            h._main_peak_frq[idx] = np.nan
+            h._main_peak_amp[idx] = np.nan
+            nopeak = np.isnan(h._main_peak_frq)
+            if (~nopeak).sum() < 3:
+                cl.skipped += 1
+                continue
+        h.valid_window_boolean_mask = np.ones(len(nopeak), dtype=bool)
+        h.valid_peak_boolean_mask = np.ones(len(nopeak), dtype=bool)
+        cl.case((j, int(nopeak.sum())))
+        pf, pa = h._main_peak_frq[~nopeak], h._main_peak_amp[~nopeak]
+        for dist in DISTS:
+            checks = [("mean_fn_frequency", h.mean_fn_frequency(dist), sr.mean(dist, pf)), ("mean_fn_amplitude", h.mean_fn_amplitude(dist), sr.mean(dist, pa)),
+                      ("std_fn_frequency", h.std_fn_frequency(dist), sr.std(dist, pf)), ("std_fn_amplitude", h.std_fn_amplitude(dist), sr.std(dist, pa)),
+                      ("nth_std_fn_frequency(1)", h.nth_std_fn_frequency(1, dist), sr.nth(dist, 1, sr.mean(dist, pf), sr.std(dist, pf)))]
+            for name, got, want in checks:
+                if not close(got, want, 1e-9, 1e-12):
+                    cl.fail("hvsrpy.statistics._nanmean_weighted", f"{name} [{dist}] = {got} with {int(nopeak.sum())} accepted peak-less window(s); the accepted windows that have a peak give {want}",
+                            signature="stat:peakless-accepted:" + name.split("(")[0])
+                    return
+
+
 CLAUSES = [
     ("cross-check:every statistic == textbook estimator over the accepted windows after random histories (range updates, FDWRA, manual, mask replacement)", "cross-check",
      "4-11 windows x 20-50 samples (some peak-less), up to 6 history steps, 3 distribution spellings", "hvsrpy.hvsr_traditional.HvsrTraditional", (60, 1500), history_clause),
+    ("bounded:fn statistics ignore accepted windows that have no peak in the range", "bounded", "6-11 windows, 1+ peak-less accepted window, 3 distribution spellings",
+     "hvsrpy.statistics._nanmean_weighted", (20, 300), peakless_accepted_clause),
     ("bounded:well-formedness of the masks is preserved by every mutator (F-9 state)", "bounded", "one constructed history", "hvsrpy.window_rejection.sta_lta_window_rejection", (1, 1), known_f9_clause),
 ]
 
